@@ -9,9 +9,9 @@ Property theorems over `PdModel.Determinism`:
 * `membership_only_invariant`, `sorted_after_invariant`, `sortedBy_after_invariant`,
   `singleton_only_invariant` — the three harmless classes of set-iteration site, for EVERY
   enumeration of the set; then one theorem per concrete site of the catalogue.
-* project-name guess: the full statement is FALSE of the code (kept below as a comment);
-  `projectname_invariant_partial`, `projectname_counterexample`,
-  `projectname_depends_on_enumeration`.
+* project-name guess: `projectname_invariant` — full statement (the code sorts the root names since
+  /repo f35e237); the pre-fix function is kept as `projectNameOld` with the historical
+  `projectname_counterexample_old`, `projectname_old_depends_on_enumeration`.
 * `keyed_writes_invariant` — static files written from an unsorted template listing.
 * `rerun_idempotent`, `output_independent_of_old_content` — the output directory.
 -/
@@ -240,15 +240,54 @@ theorem rootKinds_invariant {l₁ l₂ : List Name} (h : l₁.Perm l₂) : rootK
 
 /-! ## the project-name guess
 
-Full statement — FALSE of the current code (driver.get_system joins the *set* of root names):
+Since /repo f35e237 `driver.get_system` joins the SORTED root names, so the site is of class
+`sorted_after` and the full statement holds.  The function the code used before
+(`projectNameOld`, `'/'.join(<set>)`) is kept only to record why the fix was needed. -/
 
-    theorem projectname_invariant (e : Option Name) {l₁ l₂ : List Name} (h : l₁.Perm l₂) :
-        projectName e l₁ = projectName e l₂
+/-- **The project name (guessed or given) does not depend on the enumeration of the roots** —
+full statement, every enumeration, with or without `--project-name`, any number of roots. -/
+theorem projectname_invariant (e : Option Name) {l₁ l₂ : List Name} (h : l₁.Perm l₂) :
+    projectName e l₁ = projectName e l₂ := by
+  cases e with
+  | some n => rfl
+  | none =>
+    simp only [projectName]
+    rw [sort_perm_invariant h]
 
-It holds exactly when a name is given or there is at most one root. -/
+/- non-vacuity: two roots in the two possible enumerations, three roots rotated -/
+example : projectName none [[112], [113]] = projectName none [[113], [112]] :=
+  projectname_invariant none (List.Perm.swap _ _ _)
+example : projectName none [[97], [98], [99]] = projectName none [[99], [97], [98]] :=
+  projectname_invariant none
+    ((List.perm_append_comm (l₁ := [[97], [98]]) (l₂ := [[99]])))
 
-theorem projectname_invariant_partial (e : Option Name) {l₁ l₂ : List Name} (h : l₁.Perm l₂)
-    (hyp : e.isSome = true ∨ l₁.length ≤ 1) : projectName e l₁ = projectName e l₂ := by
+/-- the guess is the `sorted_after` site instance `join "/"` -/
+theorem projectName_eq_sortedSite (l : List Name) : projectName none l = sortedSite (join [slash]) l := rfl
+
+/-- with one root the guess is that root's name (what the code did before and after the fix) -/
+theorem projectName_single (r : Name) : projectName none [r] = r := by
+  simp [projectName, sorted, join]
+
+/-- before and after the fix agree whenever a name is given or there is at most one root: the fix
+changes nothing for those runs -/
+theorem projectName_eq_old (e : Option Name) (l : List Name) (hyp : e.isSome = true ∨ l.length ≤ 1) :
+    projectName e l = projectNameOld e l := by
+  cases e with
+  | some n => rfl
+  | none =>
+    have hlen : l.length ≤ 1 := by
+      rcases hyp with h0 | h0
+      · simp at h0
+      · exact h0
+    match l, hlen with
+    | [], _ => simp [projectName, projectNameOld, sorted]
+    | [x], _ => simp [projectName, projectNameOld, sorted]
+
+/-! ### historical: the code before f35e237 -/
+
+/-- HISTORICAL (pre-f35e237 code): what held of the old function -/
+theorem projectname_old_invariant_partial (e : Option Name) {l₁ l₂ : List Name} (h : l₁.Perm l₂)
+    (hyp : e.isSome = true ∨ l₁.length ≤ 1) : projectNameOld e l₁ = projectNameOld e l₂ := by
   cases e with
   | some n => rfl
   | none =>
@@ -258,15 +297,12 @@ theorem projectname_invariant_partial (e : Option Name) {l₁ l₂ : List Name} 
       · exact h0
     match l₁, hlen, h with
     | [], _, h => rw [List.nil_perm.mp h]
-    | [x], _, h => rw [List.singleton_perm.mp h]
+    | [x], _, h => rw [(List.singleton_perm.mp h).symm]
 
-example : projectName none [[112, 107, 103]] = [112, 107, 103] := by decide
-example : projectName (some [88]) [[112], [113]] = projectName (some [88]) [[113], [112]] :=
-  projectname_invariant_partial _ (List.Perm.swap _ _ _) (Or.inl rfl)
-
-/-- two roots `p`, `q`, no `--project-name`: the two enumerations of `{p, q}` give two names -/
-theorem projectname_counterexample :
-    ∃ l₁ l₂ : List Name, l₁.Perm l₂ ∧ l₁.Nodup ∧ projectName none l₁ ≠ projectName none l₂ :=
+/-- HISTORICAL (pre-f35e237 code): two roots `p`, `q`, no `--project-name`: the two enumerations of
+`{p, q}` gave two names -/
+theorem projectname_counterexample_old :
+    ∃ l₁ l₂ : List Name, l₁.Perm l₂ ∧ l₁.Nodup ∧ projectNameOld none l₁ ≠ projectNameOld none l₂ :=
   ⟨[[112], [113]], [[113], [112]], List.Perm.swap _ _ _, by decide, by decide⟩
 
 theorem append_sep_inj : ∀ (a b s t : Name), slash ∉ a → slash ∉ b →
@@ -284,11 +320,11 @@ theorem append_sep_inj : ∀ (a b s t : Name), slash ∉ a → slash ∉ b →
     have hb' : slash ∉ b := fun m => hb (List.mem_cons_of_mem _ m)
     rw [h.1, append_sep_inj a b s t ha' hb' h.2]
 
-/-- … and this is so for ANY two distinct root names (module names hold no `/`): without
-`--project-name`, the guessed name of a project with two roots always depends on the enumeration -/
-theorem projectname_depends_on_enumeration (a b : Name) (hab : a ≠ b) (ha : slash ∉ a) (hb : slash ∉ b) :
-    projectName none [a, b] ≠ projectName none [b, a] := by
-  simp only [projectName, join, List.append_assoc, List.singleton_append]
+/-- HISTORICAL (pre-f35e237 code): for ANY two distinct root names (module names hold no `/`) the
+old guess depended on the enumeration -/
+theorem projectname_old_depends_on_enumeration (a b : Name) (hab : a ≠ b) (ha : slash ∉ a) (hb : slash ∉ b) :
+    projectNameOld none [a, b] ≠ projectNameOld none [b, a] := by
+  simp only [projectNameOld, join, List.append_assoc, List.singleton_append]
   intro h
   exact hab (append_sep_inj a b b a ha hb h)
 
